@@ -21,8 +21,8 @@ type c17 struct{ base }
 func init() {
 	core.Register(c17{base{id: "C17", level: "exploration", quickB: 8, thoroughB: 32,
 		rule: "errors are built from a spec (base text + wrappers innermost-first over {WithCode, WithSeverity, WithHint, WithDetail, WithSource, WithConstraintName, fmt %w}); the flattening model computes the expected fields (outermost value, defaults ERROR/XXUUU, message = Go error text); each error is returned from a parser (simple Query and Parse) or a statement function (simple Query and Execute) and the ErrorResponse is parsed strictly and compared field for field. quick: exhaustive over all wrapper sequences up to depth 4 x 2 value variants + random depth <= 6; thorough: exhaustive depth 5 + 500k random depth <= 8. Non-trivial = at least two wrappers of which one repeats or is fmt-wrap/source/constraint; distinct = wrapper-kind sequence + context.",
-		need:        []string{"error_responses_compared", "with_source", "with_constraint", "repeated_decorator", "nil_error_reports"},
-		assumptions: append([]string{"decoration values are non-empty NUL-free strings (an empty hint/detail is indistinguishable from 'not set' in the API); a 'V' (non-localised severity) field equal to S is tolerated"}, commonAssumptions...)}})
+		need:        []string{"error_responses_compared", "with_source", "with_constraint", "repeated_decorator", "nil_error_reports", "empty_message_errors"},
+		assumptions: append([]string{"hint, detail, constraint, code and severity values are non-empty NUL-free strings (an empty hint/detail is indistinguishable from 'not set' in the API); the error text and the source file/function may be empty and must still be sent as (empty) fields; a 'V' (non-localised severity) field equal to S is tolerated"}, commonAssumptions...)}})
 }
 
 var c17kinds = []byte{'c', 's', 'h', 'd', 'o', 'n', 'w'}
@@ -51,6 +51,15 @@ func c17wrap(k byte, rng *core.Rng, variant int) hs.Wrap {
 	case 'd':
 		return hs.Wrap{K: 'd', S: txt("detail")}
 	case 'o':
+		if variant%4 == 3 && rng.Intn(3) == 0 { // source location with an empty file or function name
+			w := hs.Wrap{K: 'o', S: txt("file") + ".go", Line: 7, Fn: txt("fn")}
+			if rng.Bool() {
+				w.S = ""
+			} else {
+				w.Fn = ""
+			}
+			return w
+		}
 		return hs.Wrap{K: 'o', S: txt("file") + ".go", Line: core.Pick(rng, []int32{0, 1, 7, 258, 65536, 1<<31 - 1, 16777216, 256, 10}), Fn: txt("fn")}
 	case 'n':
 		return hs.Wrap{K: 'n', S: txt("constraint")}
@@ -165,6 +174,10 @@ func (ch c17) Run(c *core.Ctx) {
 		}
 		rng := core.NewRng(c.Seed, "C17", 0, i)
 		spec := &hs.ErrSpec{Base: "base " + rng.Text(1+rng.Intn(60), true)}
+		if rng.Intn(12) == 0 {
+			spec.Base = "" // an error whose text is empty still has a message field
+			c.Count("empty_message_errors", 1)
+		}
 		for d := rng.Intn(rdepth + 1); d > 0; d-- {
 			spec.Wraps = append(spec.Wraps, c17wrap(core.Pick(rng, c17kinds), rng, rng.Intn(4)))
 		}
